@@ -89,7 +89,18 @@ func (e *Env) lookupType(name string) types.Type {
 		}
 		return nil
 	}
+	if strings.HasPrefix(name, "map[") {
+		if i := strings.Index(name, "]"); i > 0 {
+			k, v := e.lookupType(name[4:i]), e.lookupType(name[i+1:])
+			if k != nil && v != nil {
+				return types.NewMap(k, v)
+			}
+		}
+		return nil
+	}
 	switch name {
+	case "float64":
+		return types.Typ[types.Float64]
 	case "int":
 		return types.Typ[types.Int]
 	case "int64":
@@ -728,6 +739,18 @@ func (e *Env) evalCall(x *Expr) cval {
 		case "String":
 			return cval{sx("str.len", a.t), I}
 		}
+		if a.ct.T != nil {
+			if u, ok := types.Unalias(a.ct.T).Underlying().(*types.Map); ok {
+				_, kin := mapKeys(u)
+				ks := vc.sortOf(u.Key())
+				cur := vc.rawLoadSort(e.st, kin, "(Array "+ks+" Bool)", a.t)
+				f := "maplen_" + sanitize(typeKey(u.Key()))
+				vc.sc.DeclFun(f, []string{"(Array " + ks + " Bool)"}, "Int")
+				vc.sc.Axiom(fmt.Sprintf("(= (%s ((as const (Array %s Bool)) false)) 0)", f, ks))
+				vc.sc.Axiom(fmt.Sprintf("(forall ((?ml (Array %s Bool))) (! (>= (%s ?ml) 0) :pattern ((%s ?ml))))", ks, f, f))
+				return cval{Ite(Eq(a.t, "nilref"), "0", sx(f, cur)), I}
+			}
+		}
 		e.errorf("len of %s", a.ct.Sort)
 		return cval{"0", I}
 	case "cap":
@@ -1045,6 +1068,78 @@ func (e *Env) evalCall(x *Expr) cval {
 		}
 	case "bstr":
 		return cval{sx("bstr", argv(0).t), S}
+	case "haskey":
+		// haskey(m, k): k is a key of map m in the current state
+		mv, k := argv(0), argv(1)
+		if mv.ct.T != nil {
+			if mt, ok := types.Unalias(mv.ct.T).Underlying().(*types.Map); ok {
+				_, kin := mapKeys(mt)
+				cur := vc.rawLoadSort(e.st, kin, "(Array "+vc.sortOf(mt.Key())+" Bool)", mv.t)
+				return cval{And(Not(Eq(mv.t, "nilref")), sx("select", cur, k.t)), B}
+			}
+		}
+		e.errorf("haskey: %s is not a map", x.Args[0])
+		return cval{"false", B}
+	case "mapkeys", "mapvals":
+		// mapkeys(m) / mapvals(m): the whole key set / value table of map m (for "unchanged" clauses)
+		mv := argv(0)
+		if mv.ct.T != nil {
+			if mt, ok := types.Unalias(mv.ct.T).Underlying().(*types.Map); ok {
+				kv, kin := mapKeys(mt)
+				ks, vs := vc.sortOf(mt.Key()), vc.sortOf(mt.Elem())
+				if x.Name == "mapkeys" {
+					return cval{vc.rawLoadSort(e.st, kin, "(Array "+ks+" Bool)", mv.t), CT{Sort: "(Array " + ks + " Bool)"}}
+				}
+				return cval{vc.rawLoadSort(e.st, kv, "(Array "+ks+" "+vs+")", mv.t), CT{Sort: "(Array " + ks + " " + vs + ")"}}
+			}
+		}
+		e.errorf("%s: %s is not a map", x.Name, x.Args[0])
+		return cval{"false", B}
+	case "ranged":
+		// ranged(k): the enclosing range-over-map loop has already produced key k
+		k := argv(0)
+		var keys []string
+		for mk := range e.st.mem {
+			if strings.HasPrefix(mk, "G:ranged:") {
+				keys = append(keys, mk)
+			}
+		}
+		if len(keys) != 1 {
+			e.errorf("ranged: needs exactly one active range-over-map loop (found %d)", len(keys))
+			return cval{"false", B}
+		}
+		return cval{sx("select", e.st.mem[keys[0]], k.t), B}
+	case "jsonAny":
+		vc.jsonDecls()
+		return cval{sx("jsonAny", argv(0).t), vc.ctOf(types.Universe.Lookup("any").Type())}
+	case "jsonStr":
+		vc.jsonDecls()
+		return cval{sx("jsonStr", argv(0).t), S}
+	case "jsonEnc":
+		vc.jsonDecls()
+		return cval{sx("jsonEnc", argv(0).t), S}
+	case "jsonMarshal":
+		vc.jsonDecls()
+		return cval{sx("jsonMarshal", argv(0).t), S}
+	case "docHas":
+		vc.jsonDecls()
+		return cval{sx("docHas", argv(0).t, argv(1).t), B}
+	case "docVal":
+		vc.jsonDecls()
+		return cval{sx("docVal", argv(0).t, argv(1).t), vc.ctOf(types.Universe.Lookup("any").Type())}
+	case "jsonSpace":
+		vc.jsonDecls()
+		return cval{sx("jsonSpace", argv(0).t), B}
+	case "decRest":
+		// decRest(): what the last json.Decoder.Decode left unread
+		if t, ok := e.st.mem["G:Dec_rest"]; ok {
+			return cval{t, S}
+		}
+		return cval{StrLit(""), S}
+	case "subslice":
+		// subslice(x, y, lo, hi): x is y[lo:hi] (same storage, that window)
+		xs, ys, lo, hi := argv(0), argv(1), argv(2), argv(3)
+		return cval{And(Eq(vc.sptr(xs.t), vc.elemAddr(vc.sptr(ys.t), lo.t)), Eq(sx("s-len", xs.t), sx("-", hi.t, lo.t))), B}
 	case "str":
 		// str(x): string view of a named string type value
 		a := argv(0)
